@@ -82,6 +82,10 @@ Lemma map_kv_id_Forall : forall (f : json -> json) (o : obj),
   Forall (fun kv => f (snd kv) = snd kv) o -> map (fun kv => (fst kv, f (snd kv))) o = o.
 Proof. intros f o H; induction H as [|[k v] t Hx Ht IH]; cbn in *; [reflexivity|congruence]. Qed.
 
+Lemma map_kv_id_Forall' : forall (o : obj) (f : string -> json -> json),
+  Forall (fun kv => f (fst kv) (snd kv) = snd kv) o -> map (fun kv => (fst kv, f (fst kv) (snd kv))) o = o.
+Proof. intros o f H; induction H as [|[k v] t Hx Ht IH]; cbn in *; [reflexivity|congruence]. Qed.
+
 Lemma n2e_arr : forall l, l <> [JNull] -> none_to_empty (JArr l) = JArr (map none_to_empty l).
 Proof. intros [|x [|y t]] H; try reflexivity; destruct x; try reflexivity; now elim H. Qed.
 Lemma e2n_arr : forall l, l <> [JNull] -> empty_to_none (JArr l) = JArr (map empty_to_none l).
@@ -218,4 +222,566 @@ Proof.
   repeat split; try (vm_compute; reflexivity).
   - now left.
   - vm_compute. discriminate.
+Qed.
+
+(* ------------------------------------------------------------------ decimal text: printing and parsing *)
+Lemma pow10_pos : forall n, 0 < pow10 n.
+Proof. intros n; unfold pow10; apply Z.pow_pos_nonneg; lia. Qed.
+
+Lemma pow10_S : forall n, pow10 (S n) = 10 * pow10 n.
+Proof. intros n; unfold pow10. rewrite Nat2Z.inj_succ, Z.pow_succ_r by lia. reflexivity. Qed.
+
+Lemma pow10_add : forall a b, pow10 (a + b) = pow10 a * pow10 b.
+Proof. intros a b; unfold pow10. rewrite Nat2Z.inj_add, Z.pow_add_r by lia. reflexivity. Qed.
+
+Definition is_digit (c : ascii) : Prop := exists v, digit_val c = Some v /\ 0 <= v <= 9.
+
+Lemma digit_cases : forall d, 0 <= d <= 9 ->
+  d = 0 \/ d = 1 \/ d = 2 \/ d = 3 \/ d = 4 \/ d = 5 \/ d = 6 \/ d = 7 \/ d = 8 \/ d = 9.
+Proof. intros; lia. Qed.
+
+Lemma digit_val_char : forall d, 0 <= d <= 9 -> digit_val (digit_char d) = Some d.
+Proof.
+  intros d H. destruct (digit_cases d H) as [->|[->|[->|[->|[->|[->|[->|[->|[->| ->]]]]]]]]]; reflexivity.
+Qed.
+
+Lemma digit_char_not_special : forall d, 0 <= d <= 9 ->
+  Ascii.eqb (digit_char d) dot = false /\ Ascii.eqb (digit_char d) minus = false /\ Ascii.eqb (digit_char d) plus = false.
+Proof.
+  intros d H. destruct (digit_cases d H) as [->|[->|[->|[->|[->|[->|[->|[->|[->| ->]]]]]]]]]; repeat split; reflexivity.
+Qed.
+
+Definition digit_like (c : ascii) : Prop :=
+  (exists v, digit_val c = Some v) /\ Ascii.eqb c dot = false /\ Ascii.eqb c minus = false /\ Ascii.eqb c plus = false.
+
+Lemma digit_char_like : forall d, 0 <= d <= 9 -> digit_like (digit_char d).
+Proof.
+  intros d H. split; [exists d; now apply digit_val_char|now apply digit_char_not_special].
+Qed.
+
+Lemma mod10_range : forall n, 0 <= n mod 10 <= 9.
+Proof. intros n; pose proof (Z.mod_pos_bound n 10); lia. Qed.
+
+Lemma digs_like : forall k n, Forall digit_like (digs k n).
+Proof.
+  induction k as [|k IH]; intros n; cbn; [constructor|].
+  apply Forall_app; split; [apply IH|]. constructor; [|constructor]. apply digit_char_like, mod10_range.
+Qed.
+
+Lemma digs_length : forall k n, length (digs k n) = k.
+Proof. induction k as [|k IH]; intros n; cbn; [reflexivity|]. rewrite app_length, IH; cbn; lia. Qed.
+
+Lemma val_acc_app : forall a b acc,
+  val_acc acc (a ++ b) = match val_acc acc a with Some v => val_acc v b | None => None end.
+Proof.
+  induction a as [|c t IH]; intros b acc; cbn; [reflexivity|].
+  destruct (digit_val c); [apply IH|reflexivity].
+Qed.
+
+Lemma val_acc_digs : forall k n acc, val_acc acc (digs k n) = Some (acc * pow10 k + n mod pow10 k).
+Proof.
+  induction k as [|k IH]; intros n acc.
+  - cbn. unfold pow10; cbn. rewrite Z.mod_1_r. f_equal; lia.
+  - cbn [digs]. rewrite val_acc_app, IH. cbn [val_acc]. rewrite digit_val_char by apply mod10_range.
+    f_equal. rewrite pow10_S.
+    rewrite (Z.rem_mul_r n 10 (pow10 k)) by (try lia; apply pow10_pos). ring.
+Qed.
+
+Lemma ndigits_fuel_bound : forall f n, 0 <= n -> n < pow10 (S f) -> n < pow10 (ndigits_fuel f n).
+Proof.
+  induction f as [|f IH]; intros n H0 H; cbn [ndigits_fuel]; [exact H|].
+  destruct (n <? 10) eqn:E; [unfold pow10; cbn; lia|].
+  assert (Hq : n / 10 < pow10 (S f)).
+  { rewrite (pow10_S (S f)) in H. apply Z.div_lt_upper_bound; lia. }
+  specialize (IH (n / 10) ltac:(apply Z.div_pos; lia) Hq).
+  rewrite pow10_S. pose proof (Z.div_mod n 10 ltac:(lia)). pose proof (mod10_range n). lia.
+Qed.
+
+Lemma ndigits_bound : forall n, 0 <= n -> n < pow10 (ndigits n).
+Proof.
+  intros n H. unfold ndigits. apply ndigits_fuel_bound; [exact H|].
+  destruct (Z.eq_dec n 0) as [->|Hn]; [unfold pow10; cbn; lia|].
+  assert (Hl : 0 <= Z.log2 n) by apply Z.log2_nonneg.
+  pose proof (Z.log2_spec n ltac:(lia)) as [_ Hs].
+  unfold pow10. rewrite Nat2Z.inj_succ, Z2Nat.id by lia.
+  eapply Z.lt_le_trans; [exact Hs|].
+  apply Z.pow_le_mono_l; lia.
+Qed.
+
+Lemma ndigits_pos : forall n, (1 <= ndigits n)%nat.
+Proof.
+  intros n; unfold ndigits. destruct (Z.to_nat (Z.log2 n)); cbn; [lia|]. destruct (n <? 10); lia.
+Qed.
+
+Lemma val_nat_str : forall n acc, 0 <= n -> val_acc acc (nat_str n) = Some (acc * pow10 (ndigits n) + n).
+Proof.
+  intros n acc H. unfold nat_str. rewrite val_acc_digs. f_equal. f_equal.
+  apply Z.mod_small. split; [exact H|now apply ndigits_bound].
+Qed.
+
+Lemma split_dot_like : forall l r, Forall digit_like l ->
+  split_dot (l ++ r) = (l ++ fst (split_dot r), snd (split_dot r)).
+Proof.
+  induction l as [|c t IH]; intros r H; cbn.
+  - now destruct (split_dot r).
+  - inversion H as [|? ? Hc Ht]; subst. destruct Hc as [_ [Hd _]]. rewrite Hd.
+    rewrite (IH r Ht). reflexivity.
+Qed.
+
+Lemma strip_sign_like : forall l r, Forall digit_like l -> l <> [] -> strip_sign (l ++ r) = (false, l ++ r).
+Proof.
+  intros [|c t] r H Hn; [now elim Hn|]. cbn. inversion H as [|? ? Hc Ht]; subst.
+  destruct Hc as [_ [_ [Hm Hp]]]. now rewrite Hm, Hp.
+Qed.
+
+Lemma nat_str_like : forall n, Forall digit_like (nat_str n).
+Proof. intros; apply digs_like. Qed.
+Lemma nat_str_nonempty : forall n, nat_str n <> [].
+Proof.
+  intros n H. apply (f_equal (@length _)) in H. unfold nat_str in H. rewrite digs_length in H.
+  pose proof (ndigits_pos n). cbn in H. lia.
+Qed.
+
+Lemma strip_sign_signed : forall neg l r, Forall digit_like l -> l <> [] ->
+  strip_sign (sign_str neg ++ l ++ r) = (neg, l ++ r).
+Proof.
+  intros [|] l r H Hn; cbn [sign_str app].
+  - cbn. reflexivity.
+  - now apply strip_sign_like.
+Qed.
+
+(* float(s) on the text the formatter produces *)
+Lemma py_float_fixed : forall neg a d, 0 <= a ->
+  py_float (string_of_list_ascii (fixed_str neg a d)) = Ok (norm_float (if neg then - a else a) d).
+Proof.
+  intros neg a d Ha. unfold py_float, fixed_str.
+  rewrite list_ascii_of_string_of_list_ascii.
+  rewrite strip_sign_signed by (apply nat_str_like || apply nat_str_nonempty).
+  rewrite split_dot_like by apply nat_str_like.
+  cbn [split_dot]. rewrite Ascii.eqb_refl. cbn [fst snd]. rewrite app_nil_r.
+  assert (Hne : nat_str (a / pow10 d) ++ digs d (a mod pow10 d) <> []).
+  { intro H. apply app_eq_nil in H. destruct H as [H _]. now apply nat_str_nonempty in H. }
+  destruct (nat_str (a / pow10 d) ++ digs d (a mod pow10 d)) eqn:E; [now elim Hne|]. rewrite <- E.
+  rewrite val_acc_app, val_nat_str by (apply Z.div_pos; [lia|apply pow10_pos]).
+  rewrite val_acc_digs, digs_length. f_equal. f_equal.
+  pose proof (pow10_pos d). pose proof (pow10_pos (ndigits (a / pow10 d))).
+  rewrite Z.mod_mod by lia. rewrite Z.mul_0_l, Z.add_0_l.
+  assert (a / pow10 d * pow10 d + a mod pow10 d = a) as -> by (pose proof (Z.div_mod a (pow10 d)); lia).
+  reflexivity.
+Qed.
+
+(* ---- trailing zeros ---- *)
+Lemma strip0_SS : forall a p,
+  strip0 a (S (S p)) = if a mod 10 =? 0 then strip0 (a / 10) (S p) else (a, S (S p)).
+Proof. reflexivity. Qed.
+
+Lemma strip0_pad : forall k a d, (1 <= d)%nat -> strip0 (a * pow10 k) (d + k) = strip0 a d.
+Proof.
+  induction k as [|k IH]; intros a d Hd.
+  - unfold pow10; cbn. rewrite Z.mul_1_r, Nat.add_0_r. reflexivity.
+  - replace (d + S k)%nat with (S (d + k)) by lia.
+    destruct (d + k)%nat as [|p] eqn:E; [lia|].
+    rewrite strip0_SS, pow10_S.
+    replace (a * (10 * pow10 k)) with (a * pow10 k * 10) by ring.
+    rewrite Z.mod_mul, Z.div_mul by lia. cbn [Z.eqb]. rewrite <- E. now apply IH.
+Qed.
+
+Lemma strip0_spec : forall d a a' d', strip0 a d = (a', d') ->
+  (d' <= d)%nat /\ ((1 <= d)%nat -> (1 <= d')%nat) /\ a = a' * pow10 (d - d') /\ strip0 a' d' = (a', d').
+Proof.
+  induction d as [|d IH]; intros a a' d' H.
+  - cbn in H. injection H as <- <-. repeat split; try lia. unfold pow10; cbn; lia.
+  - destruct d as [|p].
+    + cbn in H. injection H as <- <-. repeat split; try lia. unfold pow10; cbn; lia.
+    + rewrite strip0_SS in H. destruct (a mod 10 =? 0) eqn:E.
+      * destruct (IH _ _ _ H) as (H1 & H2 & H3 & H4). repeat split; try lia; [|exact H4].
+        specialize (H2 ltac:(lia)).
+        replace (S (S p) - d')%nat with (S (S p - d')) by lia. rewrite pow10_S.
+        pose proof (Z.div_mod a 10 ltac:(lia)). lia.
+      * injection H as <- <-. repeat split; try lia.
+        -- rewrite Nat.sub_diag. unfold pow10; cbn; lia.
+        -- rewrite strip0_SS, E. reflexivity.
+Qed.
+
+(* a float as the model represents it *)
+Definition wf_float (m : Z) (d : nat) : Prop := (1 <= d)%nat /\ strip0 (Z.abs m) d = (Z.abs m, d).
+
+Lemma norm_float_wf : forall m d, wf_float m d -> norm_float m d = JNum m d.
+Proof.
+  intros m d [Hd Hs]. unfold norm_float. destruct d as [|p]; [lia|]. rewrite Hs.
+  destruct (m <? 0) eqn:E; f_equal; lia.
+Qed.
+
+Lemma norm_float_is_wf : forall m d m' d', (1 <= d)%nat -> norm_float m d = JNum m' d' ->
+  wf_float m' d' /\ (d' <= d)%nat.
+Proof.
+  intros m d m' d' Hd H. unfold norm_float in H. destruct d as [|p]; [lia|].
+  destruct (strip0 (Z.abs m) (S p)) as [a dd] eqn:E.
+  destruct (strip0_spec _ _ _ _ E) as (H1 & H2 & H3 & H4).
+  assert (Ha : 0 <= a).
+  { pose proof (pow10_pos (S p - dd)). pose proof (Z.abs_nonneg m). nia. }
+  injection H as <- <-. split; [|exact H1]. split; [apply H2; lia|].
+  destruct (m <? 0); [rewrite Z.abs_opp|]; rewrite Z.abs_eq by exact Ha; exact H4.
+Qed.
+
+(* ---- the value a number has after one conversion to text with fd fraction digits and back ---- *)
+Definition quant_pair (fd : nat) (m : Z) (d : nat) : Z * nat :=
+  if (d =? 0)%nat || repr_has_e m d || (Z.of_nat fd <? 17) then (round_he (Z.abs m) d fd, fd)
+  else trunc_to (Z.abs m) d fd.
+Definition quant (fd : nat) (m : Z) (d : nat) : json :=
+  let '(a1, d1) := quant_pair fd m d in norm_float (if m <? 0 then - a1 else a1) d1.
+
+Lemma round_he_nonneg : forall a d fd, 0 <= a -> 0 <= round_he a d fd.
+Proof.
+  intros a d fd H. unfold round_he. destruct (d <=? fd)%nat.
+  - pose proof (pow10_pos (fd - d)). nia.
+  - pose proof (pow10_pos (d - fd)) as Hp.
+    assert (0 <= a / pow10 (d - fd)) by (apply Z.div_pos; lia).
+    destruct (2 * (a mod pow10 (d - fd)) <? pow10 (d - fd)); [lia|].
+    destruct (pow10 (d - fd) <? 2 * (a mod pow10 (d - fd))); [lia|].
+    destruct (Z.even (a / pow10 (d - fd))); lia.
+Qed.
+
+(* round_he is a nearest rounding: the error is at most half a unit of the last kept digit *)
+Lemma round_he_nearest : forall a d fd, 0 <= a -> (fd < d)%nat ->
+  2 * Z.abs (round_he a d fd * pow10 (d - fd) - a) <= pow10 (d - fd).
+Proof.
+  intros a d fd H Hlt. unfold round_he. destruct (d <=? fd)%nat eqn:E; [apply Nat.leb_le in E; lia|].
+  pose proof (pow10_pos (d - fd)) as Hp. set (p := pow10 (d - fd)) in *.
+  pose proof (Z.div_mod a p ltac:(lia)) as Hdm. pose proof (Z.mod_pos_bound a p Hp) as Hb.
+  destruct (2 * (a mod p) <? p) eqn:E1; [lia|].
+  destruct (p <? 2 * (a mod p)) eqn:E2; [lia|].
+  destruct (Z.even (a / p)); lia.
+Qed.
+
+Lemma quant_pair_nonneg : forall fd m d, 0 <= fst (quant_pair fd m d).
+Proof.
+  intros fd m d. unfold quant_pair.
+  destruct ((d =? 0)%nat || repr_has_e m d || (Z.of_nat fd <? 17)); cbn [fst].
+  - apply round_he_nonneg, Z.abs_nonneg.
+  - unfold trunc_to. destruct (d <=? fd)%nat; cbn [fst]; [apply Z.abs_nonneg|].
+    apply Z.div_pos; [apply Z.abs_nonneg|apply pow10_pos].
+Qed.
+
+Lemma quant_pair_digits : forall fd m d, (1 <= fd)%nat ->
+  (1 <= snd (quant_pair fd m d) <= fd)%nat.
+Proof.
+  intros fd m d Hf. unfold quant_pair.
+  destruct ((d =? 0)%nat || repr_has_e m d || (Z.of_nat fd <? 17)) eqn:Eb; cbn [snd]; [lia|].
+  assert (Hd : (1 <= d)%nat) by (destruct d; [cbn in Eb; discriminate|lia]).
+  unfold trunc_to. destruct (d <=? fd)%nat eqn:E; cbn [snd]; [apply Nat.leb_le in E; lia|lia].
+Qed.
+
+Lemma sign_abs : forall m, (if m <? 0 then - Z.abs m else Z.abs m) = m.
+Proof. intros m; destruct (m <? 0) eqn:E; lia. Qed.
+
+Lemma norm_float_pad : forall m d k, wf_float m d -> norm_float (m * pow10 k) (d + k) = JNum m d.
+Proof.
+  intros m d k [Hd Hs]. unfold norm_float. destruct (d + k)%nat as [|p] eqn:E; [lia|]. rewrite <- E.
+  pose proof (pow10_pos k) as Hp.
+  rewrite Z.abs_mul, (Z.abs_eq (pow10 k)) by lia. rewrite strip0_pad, Hs by exact Hd.
+  assert ((m * pow10 k <? 0) = (m <? 0)) as -> by (destruct (m <? 0) eqn:Em; nia).
+  f_equal. apply sign_abs.
+Qed.
+
+(* a float with at most fd digits is not changed *)
+Lemma quant_exact : forall fd m d, wf_float m d -> (d <= fd)%nat -> quant fd m d = JNum m d.
+Proof.
+  intros fd m d W Hle. unfold quant, quant_pair.
+  destruct ((d =? 0)%nat || repr_has_e m d || (Z.of_nat fd <? 17)).
+  - unfold round_he. apply Nat.leb_le in Hle. rewrite Hle. apply Nat.leb_le in Hle.
+    assert ((if m <? 0 then - (Z.abs m * pow10 (fd - d)) else Z.abs m * pow10 (fd - d)) = m * pow10 (fd - d)) as ->
+      by (destruct (m <? 0) eqn:E; nia).
+    replace fd with (d + (fd - d))%nat at 2 by lia. now apply norm_float_pad.
+  - unfold trunc_to. apply Nat.leb_le in Hle. rewrite Hle. rewrite sign_abs. now apply norm_float_wf.
+Qed.
+
+Lemma quant_is_wf : forall fd m d m' d', (1 <= fd)%nat -> quant fd m d = JNum m' d' ->
+  wf_float m' d' /\ (d' <= fd)%nat.
+Proof.
+  intros fd m d m' d' Hf H. unfold quant in H.
+  pose proof (quant_pair_digits fd m d Hf) as Hq.
+  destruct (quant_pair fd m d) as [a1 d1]. cbn [snd] in Hq.
+  destruct (norm_float_is_wf _ _ _ _ (proj1 Hq) H) as [W Hle]. split; [exact W|lia].
+Qed.
+
+(* rounded once: converting the converted value again changes nothing *)
+Lemma quant_idempotent : forall fd m d m' d', (1 <= fd)%nat -> quant fd m d = JNum m' d' ->
+  quant fd m' d' = JNum m' d'.
+Proof. intros fd m d m' d' Hf H. destruct (quant_is_wf _ _ _ _ _ Hf H). now apply quant_exact. Qed.
+
+Lemma quant_is_num : forall fd m d, exists m' d', quant fd m d = JNum m' d'.
+Proof.
+  intros fd m d. unfold quant. destruct (quant_pair fd m d) as [a1 d1]. unfold norm_float.
+  destruct d1; [eauto|]. destruct (strip0 _ _); eauto.
+Qed.
+
+(* ---- str(PrettyFloat(x, fd)) followed by float() ---- *)
+Lemma pretty_parse : forall fd m d, (1 <= fd <= 18)%nat ->
+  exists s, pretty (Z.of_nat fd) m d = Ok s /\ py_float (string_of_list_ascii s) = Ok (quant fd m d).
+Proof.
+  intros fd m d Hf. unfold pretty.
+  assert (E0 : (Z.of_nat fd <? 0) || (18 <? Z.of_nat fd) = false) by lia. rewrite E0.
+  rewrite Nat2Z.id. unfold quant, quant_pair.
+  destruct ((d =? 0)%nat || repr_has_e m d || (Z.of_nat fd <? 17)) eqn:Eb.
+  - destruct fd as [|q]; [lia|].
+    destruct (strip0 (round_he (Z.abs m) d (S q)) (S q)) as [a' d'] eqn:Es.
+    eexists; split; [reflexivity|].
+    pose proof (round_he_nonneg (Z.abs m) d (S q) (Z.abs_nonneg m)) as Hr.
+    destruct (strip0_spec _ _ _ _ Es) as (H1 & H2 & H3 & H4).
+    assert (Ha' : 0 <= a') by (pose proof (pow10_pos (S q - d')); nia).
+    rewrite py_float_fixed by exact Ha'.
+    (* both sides are norm_float of the same magnitude with the same sign test *)
+    unfold norm_float at 2.
+    assert (Habs : Z.abs (if m <? 0 then - round_he (Z.abs m) d (S q) else round_he (Z.abs m) d (S q))
+                   = round_he (Z.abs m) d (S q)) by (destruct (m <? 0); lia).
+    rewrite Habs, Es.
+    specialize (H2 ltac:(lia)).
+    assert (W : wf_float (if m <? 0 then - a' else a') d').
+    { split; [exact H2|]. destruct (m <? 0); [rewrite Z.abs_opp|]; rewrite Z.abs_eq by exact Ha'; exact H4. }
+    rewrite (norm_float_wf _ _ W). f_equal.
+    destruct (m <? 0) eqn:Em;
+      [|assert ((round_he (Z.abs m) d (S q) <? 0) = false) as -> by lia; reflexivity].
+    destruct (Z.eq_dec a' 0) as [->|Hn0].
+    + assert (round_he (Z.abs m) d (S q) = 0) as -> by lia. reflexivity.
+    + assert (0 < round_he (Z.abs m) d (S q)) by (pose proof (pow10_pos (S q - d')); nia).
+      assert ((- round_he (Z.abs m) d (S q) <? 0) = true) as -> by lia.
+      assert ((- a' <? 0) = true) by lia. reflexivity.
+  - destruct (trunc_to (Z.abs m) d fd) as [a1 d1] eqn:Et.
+    destruct (strip0 a1 d1) as [a' d'] eqn:Es.
+    eexists; split; [reflexivity|].
+    assert (Hd : (1 <= d)%nat).
+    { destruct d; [cbn in Eb; discriminate|lia]. }
+    assert (Ha1 : 0 <= a1 /\ (1 <= d1)%nat).
+    { unfold trunc_to in Et. destruct (d <=? fd)%nat; injection Et as <- <-.
+      - split; [apply Z.abs_nonneg|lia].
+      - split; [apply Z.div_pos; [apply Z.abs_nonneg|apply pow10_pos]|lia]. }
+    destruct (strip0_spec _ _ _ _ Es) as (H1 & H2 & H3 & H4).
+    assert (Ha' : 0 <= a') by (pose proof (pow10_pos (d1 - d')); nia).
+    rewrite py_float_fixed by exact Ha'.
+    unfold norm_float at 2. destruct d1 as [|p1]; [lia|].
+    assert (Habs : Z.abs (if m <? 0 then - a1 else a1) = a1) by (destruct (m <? 0); lia).
+    rewrite Habs, Es.
+    specialize (H2 ltac:(lia)).
+    assert (W : wf_float (if m <? 0 then - a' else a') d').
+    { split; [exact H2|]. destruct (m <? 0); [rewrite Z.abs_opp|]; rewrite Z.abs_eq by exact Ha'; exact H4. }
+    rewrite (norm_float_wf _ _ W). f_equal.
+    destruct (m <? 0) eqn:Em; [|assert ((a1 <? 0) = false) as -> by lia; reflexivity].
+    destruct (Z.eq_dec a' 0) as [->|Hn0].
+    + assert (a1 = 0) as -> by lia. reflexivity.
+    + assert (0 < a1) by (pose proof (pow10_pos (S p1 - d')); nia).
+      assert ((- a1 <? 0) = true) as -> by lia.
+      assert ((- a' <? 0) = true) by lia. reflexivity.
+Qed.
+
+(* ------------------------------------------------------------------ convert_dict / convert_back on documents *)
+Lemma mapM_chain : forall {A B C} (f : A -> res B) (g : B -> res C) (q : A -> C) l,
+  Forall (fun x => exists y, f x = Ok y /\ g y = Ok (q x)) l ->
+  exists l', mapM f l = Ok l' /\ mapM g l' = Ok (map q l).
+Proof.
+  intros A B C f g q l H; induction H as [|x t (y & Hf & Hg) Ht (t' & IH1 & IH2)].
+  - exists []. split; reflexivity.
+  - exists (y :: t'). split; cbn.
+    + fold (mapM f). rewrite Hf. cbn. rewrite IH1. reflexivity.
+    + fold (mapM g). rewrite Hg. cbn. rewrite IH2. reflexivity.
+Qed.
+
+Arguments prec k : simpl never.
+Arguments prec_d k : simpl never.
+
+Definition dflt (c : option Z) : Z := match c with Some f => f | None => 2 end.
+Lemma prec_d_dflt : forall k, prec_d k = dflt (prec k).
+Proof. reflexivity. Qed.
+
+(* what convert_back does to one element of a list *)
+Definition cb_elem (c : option Z) (x : json) : res json :=
+  match x with
+  | JStr s => if in_none_m1 c then Ok x else py_float s
+  | _ => convert_back_fd c x
+  end.
+
+Lemma cb_arr_eq : forall c l, convert_back_fd c (JArr l) = let* l' := mapM (cb_elem c) l in Ok (JArr l').
+Proof. reflexivity. Qed.
+Lemma cb_obj_eq : forall c o, convert_back_fd c (JObj o) =
+  let* o' := mapM (fun kv => let* v' := convert_back_fd (prec (fst kv)) (snd kv) in Ok (fst kv, v')) o in Ok (JObj o').
+Proof. reflexivity. Qed.
+Lemma cd_arr_eq : forall fd l, convert_dict_fd fd (JArr l) = let* l' := mapM (convert_dict_fd fd) l in Ok (JArr l').
+Proof. reflexivity. Qed.
+Lemma cd_obj_eq : forall fd o, convert_dict_fd fd (JObj o) =
+  let* o' := mapM (fun kv => let* v' := convert_dict_fd (prec_d (fst kv)) (snd kv) in Ok (fst kv, v')) o in Ok (JObj o').
+Proof. reflexivity. Qed.
+
+(* documents whose numbers sit in leaves that declare a precision: an int in an integer leaf (0 digits),
+   any number in a decimal leaf (1..18 digits); strings only in string-typed or undeclared leaves *)
+Definition num_loose (c : option Z) (d : nat) : bool :=
+  match c with
+  | None => false
+  | Some f => if f =? 0 then (d =? 0)%nat else (0 <? f) && (f <=? 18)
+  end.
+Fixpoint doc_loose (c : option Z) (j : json) : bool :=
+  match j with
+  | JNum m d => num_loose c d
+  | JStr _ => in_none_m1 c
+  | JArr l => forallb (doc_loose c) l
+  | JObj o => forallb (fun kv => doc_loose (prec (fst kv)) (snd kv)) o
+  | _ => true
+  end.
+(* ... and whose floats have at most the declared number of digits *)
+Definition wf_float_b (m : Z) (d : nat) : bool :=
+  (1 <=? d)%nat && (let '(a, d') := strip0 (Z.abs m) d in (a =? Z.abs m) && (d' =? d)%nat).
+Definition num_ok (c : option Z) (m : Z) (d : nat) : bool :=
+  match c with
+  | None => false
+  | Some f => if f =? 0 then (d =? 0)%nat
+              else (0 <? f) && (f <=? 18) && wf_float_b m d && (Z.of_nat d <=? f)
+  end.
+Fixpoint doc_ok (c : option Z) (j : json) : bool :=
+  match j with
+  | JNum m d => num_ok c m d
+  | JStr _ => in_none_m1 c
+  | JArr l => forallb (doc_ok c) l
+  | JObj o => forallb (fun kv => doc_ok (prec (fst kv)) (snd kv)) o
+  | _ => true
+  end.
+
+Lemma wf_float_b_spec : forall m d, wf_float_b m d = true <-> wf_float m d.
+Proof.
+  intros m d. unfold wf_float_b, wf_float. destruct (strip0 (Z.abs m) d) as [a d'] eqn:E. split.
+  - intros H. apply andb_true_iff in H as [H1 H2]. apply andb_true_iff in H2 as [H2 H3].
+    apply Nat.leb_le in H1. apply Z.eqb_eq in H2. apply Nat.eqb_eq in H3. subst. auto.
+  - intros [H1 H2]. injection H2 as -> ->. apply Nat.leb_le in H1. rewrite H1, Z.eqb_refl, Nat.eqb_refl. reflexivity.
+Qed.
+
+(* the document after legacy -> text -> legacy: every number of a decimal leaf brought to the declared digits *)
+Fixpoint quant_doc (c : option Z) (j : json) : json :=
+  match j with
+  | JNum m d => match c with
+                | Some f => if 0 <? f then quant (Z.to_nat f) m d else j
+                | None => j
+                end
+  | JArr l => JArr (map (quant_doc c) l)
+  | JObj o => JObj (map (fun kv => (fst kv, quant_doc (prec (fst kv)) (snd kv))) o)
+  | _ => j
+  end.
+
+Lemma cb_of_num : forall c m d, convert_back_fd c (JNum m d) = Ok (JNum m d).
+Proof. reflexivity. Qed.
+
+Lemma cd_cb_main : forall x c, doc_loose c x = true ->
+  exists y, convert_dict_fd (dflt c) x = Ok y /\ convert_back_fd c y = Ok (quant_doc c x)
+            /\ cb_elem c y = Ok (quant_doc c x).
+Proof.
+  induction x as [| | | |l IH|o IH] using json_ind'; intros c W.
+  - exists JNull. repeat split; reflexivity.
+  - exists (JBool b). repeat split; reflexivity.
+  - (* number *)
+    cbn in W. unfold num_loose in W. destruct c as [f|]; [|discriminate]. cbn [dflt quant_doc].
+    destruct (f =? 0) eqn:Ef.
+    + apply Z.eqb_eq in Ef. subst f. apply Nat.eqb_eq in W. subst d.
+      exists (JNum m 0). repeat split; reflexivity.
+    + apply andb_true_iff in W as [W1 W2].
+      assert (Hf : (1 <= Z.to_nat f <= 18)%nat) by lia.
+      destruct (pretty_parse (Z.to_nat f) m d Hf) as (s & Hs & Hp).
+      rewrite Z2Nat.id in Hs by lia.
+      assert (Hc : convert_dict_fd f (JNum m d) = Ok (JStr (string_of_list_ascii s))).
+      { cbn. unfold cnum. destruct d; rewrite ?W1, Hs; reflexivity. }
+      exists (JStr (string_of_list_ascii s)). rewrite W1. repeat split; [exact Hc| |].
+      * cbn. rewrite W1. exact Hp.
+      * unfold cb_elem, in_none_m1. assert ((f =? -1) = false) as -> by lia. exact Hp.
+  - (* string *)
+    cbn in W. exists (JStr s). repeat split; try reflexivity.
+    + destruct c as [f|]; [|reflexivity]. cbn in W. cbn.
+      assert ((0 <? f) = false) as -> by lia. assert ((f <? 0) = true) as -> by lia. reflexivity.
+    + cbn. rewrite W. reflexivity.
+  - (* array *)
+    cbn in W.
+    assert (Hall : Forall (fun x => exists y, convert_dict_fd (dflt c) x = Ok y /\ cb_elem c y = Ok (quant_doc c x)) l).
+    { rewrite forallb_forall in W. rewrite Forall_forall in *. intros x Hx.
+      destruct (IH x Hx c (W x Hx)) as (y & H1 & _ & H3). eauto. }
+    destruct (mapM_chain _ _ _ _ Hall) as (l' & H1 & H2).
+    exists (JArr l'). rewrite cd_arr_eq, H1. cbn [bind quant_doc]. split; [reflexivity|].
+    assert (Hb : convert_back_fd c (JArr l') = Ok (JArr (map (quant_doc c) l))) by (rewrite cb_arr_eq, H2; reflexivity).
+    split; [exact Hb|exact Hb].
+  - (* object *)
+    cbn in W.
+    assert (Hall : Forall (fun kv => exists kv',
+                (let* v' := convert_dict_fd (prec_d (fst kv)) (snd kv) in Ok (fst kv, v')) = Ok kv' /\
+                (let* v' := convert_back_fd (prec (fst kv')) (snd kv') in Ok (fst kv', v'))
+                  = Ok ((fun kv => (fst kv, quant_doc (prec (fst kv)) (snd kv))) kv)) o).
+    { rewrite forallb_forall in W. rewrite Forall_forall in *. intros kv Hkv.
+      destruct (IH kv Hkv (prec (fst kv)) (W kv Hkv)) as (y & H1 & H2 & _).
+      exists (fst kv, y). rewrite prec_d_dflt, H1. cbn [fst snd bind]. rewrite H2. split; reflexivity. }
+    destruct (mapM_chain _ _ _ _ Hall) as (o' & H1 & H2).
+    exists (JObj o'). rewrite cd_obj_eq, H1. cbn [bind quant_doc]. split; [reflexivity|].
+    assert (Hb : convert_back_fd c (JObj o') =
+                 Ok (JObj (map (fun kv => (fst kv, quant_doc (prec (fst kv)) (snd kv))) o)))
+      by (rewrite cb_obj_eq, H2; reflexivity).
+    split; exact Hb.
+Qed.
+
+Lemma doc_ok_loose : forall x c, doc_ok c x = true -> doc_loose c x = true.
+Proof.
+  induction x as [| | | |l IH|o IH] using json_ind'; intros c W; try exact W; try reflexivity.
+  - cbn in *. unfold num_ok in W. unfold num_loose. destruct c as [f|]; [|discriminate].
+    destruct (f =? 0); [exact W|]. apply andb_true_iff in W as [W _]. apply andb_true_iff in W as [W _]. exact W.
+  - cbn in *. rewrite forallb_forall in *. rewrite Forall_forall in IH. intros x Hx. apply IH; auto.
+  - cbn in *. rewrite forallb_forall in *. rewrite Forall_forall in IH. intros kv Hkv. apply IH; auto.
+Qed.
+
+Lemma quant_doc_exact : forall x c, doc_ok c x = true -> quant_doc c x = x.
+Proof.
+  induction x as [| | | |l IH|o IH] using json_ind'; intros c W; try reflexivity.
+  - cbn in *. unfold num_ok in W. destruct c as [f|]; [|reflexivity].
+    destruct (0 <? f) eqn:E0; [|reflexivity].
+    assert ((f =? 0) = false) as Ef by lia. rewrite Ef in W.
+    apply andb_true_iff in W as [W W4]. apply andb_true_iff in W as [W W3]. apply andb_true_iff in W as [W1 W2].
+    apply wf_float_b_spec in W3. apply quant_exact; [exact W3|lia].
+  - cbn in *. f_equal. apply map_id_Forall. rewrite forallb_forall in W. rewrite Forall_forall in *.
+    intros x Hx. apply IH; auto.
+  - cbn in *. f_equal. apply (map_kv_id_Forall' o (fun k v => quant_doc (prec k) v)).
+    rewrite forallb_forall in W. rewrite Forall_forall in *. intros kv Hkv. apply IH; auto.
+Qed.
+
+Lemma quant_doc_ok : forall x c, doc_loose c x = true -> doc_ok c (quant_doc c x) = true.
+Proof.
+  induction x as [| | | |l IH|o IH] using json_ind'; intros c W; try exact W; try reflexivity.
+  - cbn in *. unfold num_loose in W. destruct c as [f|]; [|discriminate].
+    destruct (f =? 0) eqn:Ef.
+    + assert ((0 <? f) = false) as -> by lia. cbn. now rewrite Ef.
+    + apply andb_true_iff in W as [W1 W2]. rewrite W1.
+      destruct (quant_is_num (Z.to_nat f) m d) as (m' & d' & Hq). rewrite Hq.
+      assert (Hf1 : (1 <= Z.to_nat f)%nat) by lia.
+      destruct (quant_is_wf _ _ _ _ _ Hf1 Hq) as [Wf Hd].
+      cbn. rewrite Ef, W1, W2. apply wf_float_b_spec in Wf. rewrite Wf. cbn. lia.
+  - cbn in *. rewrite forallb_forall in *. rewrite Forall_forall in IH. intros x Hx.
+    apply in_map_iff in Hx as (x0 & <- & Hx0). apply IH; auto.
+  - cbn in *. rewrite forallb_forall in *. rewrite Forall_forall in IH. intros kv Hkv.
+    apply in_map_iff in Hkv as (kv0 & <- & Hkv0). cbn [fst snd]. apply IH; auto.
+Qed.
+
+(* back (forth d) = d : every value already within its declared precision survives unchanged *)
+Theorem cback_cdict_exact : forall x, doc_ok None x = true ->
+  exists y, convert_dict x = Ok y /\ convert_back y = Ok x.
+Proof.
+  intros x W. destruct (cd_cb_main x None (doc_ok_loose _ _ W)) as (y & H1 & H2 & _).
+  exists y. split; [exact H1|]. unfold convert_back. rewrite H2, quant_doc_exact by exact W. reflexivity.
+Qed.
+
+(* more digits than declared: rounded once — the result is within the declared precision, and a second
+   conversion there and back leaves it unchanged *)
+Theorem cback_cdict_rounds_once : forall x, doc_loose None x = true ->
+  exists y x', convert_dict x = Ok y /\ convert_back y = Ok x' /\ x' = quant_doc None x /\ doc_ok None x' = true /\
+               exists y', convert_dict x' = Ok y' /\ convert_back y' = Ok x'.
+Proof.
+  intros x W. destruct (cd_cb_main x None W) as (y & H1 & H2 & _).
+  exists y, (quant_doc None x). repeat split; try assumption.
+  - now apply quant_doc_ok.
+  - apply cback_cdict_exact. now apply quant_doc_ok.
+Qed.
+
+(* hence the conversion to text is idempotent *)
+Corollary cdict_idempotent : forall x, doc_ok None x = true ->
+  exists y x', convert_dict x = Ok y /\ convert_back y = Ok x' /\ convert_dict x' = Ok y.
+Proof.
+  intros x W. destruct (cback_cdict_exact x W) as (y & H1 & H2). exists y, x. auto.
 Qed.
